@@ -644,6 +644,14 @@ class VGen(Gen):
                 return {"t": "sub", "cls": self.new_class(3, base="dict"), "v": t}
             t["oid"] = self.oid()
             return t
+        if tt == "inst" and c < 0.2 and t["cls"]["kind"] == 1 and t["names"]:
+            # a dataclass instance one of whose declared fields holds no value
+            t = copy.deepcopy(t)
+            i = r.randrange(len(t["names"]))
+            t["names"].pop(i)
+            t["vals"].pop(i)
+            t["oid"] = self.oid()
+            return t
         if tt == "inst" and c < 0.5 and t["cls"]["kind"] in (1, 2):
             # same fields, different class
             c2 = self.new_class(t["cls"]["kind"], fields=[[n, None] for n in t["names"]])
